@@ -151,7 +151,7 @@ def r3_order_key(ctx):
     fn = corpus.func('repository', 'Repository.restore')
     sorts = []
     for c in calls_in(fn.node):
-        if dotted(c.func) == 'sorted' and c.args and any(isinstance(x, ast.Constant) and x.value == 'chunks' for x in ast.walk(c.args[0])):
+        if dotted(c.func) == 'sorted' and c.args and any(isinstance(x, ast.Constant) and x.value == 'chunks' for x in ast.walk(deref_at(fn.node, c.args[0]) if isinstance(c.args[0], ast.Name) else c.args[0])):
             sorts.append(c)
     ctx.floor('C01.R3', "sorted(file['chunks'], key=...) in restore", len(sorts))
     snap = corpus.func('repository', 'Repository.snapshot')
@@ -404,6 +404,13 @@ def _is_cache_path(t):
     return t[0] == 'call' and t[1] == ('name', 'pathlib.Path') and bool(t[2]) and t[2][0][0] == 'attr' and t[2][0][2] == '_cache_directory'
 
 
+def KNOWN_RECORDS(corpus):
+    import json, os
+
+    inv = json.load(open(os.path.join(os.path.dirname(os.path.dirname(os.path.abspath(__file__))), 'inventory.json')))
+    return {f'{rel}::{c}' for rel, v in inv.items() for c in v.get('classes', [])}
+
+
 def r6_confinement(ctx):
     corpus = ctx.corpus
     fn = corpus.func('repository', 'Repository.restore')
@@ -437,6 +444,9 @@ def r6_confinement(ctx):
                 continue
             n += 1
             inside = all(_rooted_at_target(a) for a in alts(tgt))
+            if not inside and any(a and a[0] == 'record' and a[1] not in KNOWN_RECORDS(corpus) for a in alts(tgt)):
+                # the path travels inside an object of a class this analysis has no model of: no verdict either way
+                raise AnalysisError(f'C01.R6: the target of `{what}` at {e.loc} is carried by an object of a class introduced after the design tree ({show(tgt, limit=60)}); the path cannot be traced through it')
             ctx.check(
                 inside,
                 'C01.R6',
